@@ -83,8 +83,29 @@ fn trailing_ok(c: &Leaf, s: u8) -> bool {
   s == 1 || cand_skippable(c, s)
 }
 
+/// Known finding `ellipsis_skips_following_tokens` (known_findings.txt): unnamed pattern
+/// tokens that directly follow a `$$$` are dropped without being matched, under every
+/// strictness (`[$$$A,]` matches `[1]` even under cst).  While that finding is listed the
+/// oracle tolerates exactly this class, so that any *other* unjustified match still fails.
+pub const KF_ELLIPSIS_TOKENS: bool = cfg!(feature = "kf_ellipsis_skips_following_tokens");
+
 /// does a legal alignment of goals[0..m) with cands[0..k) exist?
 pub fn legal(gv: &[G], goals: &[Leaf; KMAX], m: usize, cands: &[Leaf; KMAX], k: usize, s: u8) -> bool {
+  legal_with(gv, goals, m, cands, k, s, KF_ELLIPSIS_TOKENS)
+}
+
+pub fn legal_with(gv: &[G], goals: &[Leaf; KMAX], m: usize, cands: &[Leaf; KMAX], k: usize, s: u8, kf_ell: bool) -> bool {
+  // after_ell[i]: goal i is an unnamed token separated from a preceding ellipsis only by
+  // other unnamed tokens
+  let mut after_ell = [false; KMAX];
+  let mut i = 1;
+  while i < m {
+    if gv[i] == G::T && !goals[i].named {
+      let prev_ell = matches!(gv[i - 1], G::Ell | G::EllCap);
+      after_ell[i] = prev_ell || after_ell[i - 1];
+    }
+    i += 1;
+  }
   // l[i][j]: goals[i..] can be aligned with cands[j..]
   let mut l = [[false; KMAX + 1]; KMAX + 1];
   let mut j = KMAX + 1;
@@ -125,7 +146,7 @@ pub fn legal(gv: &[G], goals: &[Leaf; KMAX], m: usize, cands: &[Leaf; KMAX], k: 
           }
         }
         G::T | G::CapNamed | G::CapAny => {
-          if goal_skippable(g, &goals[i], s) && l[i + 1][j] {
+          if (goal_skippable(g, &goals[i], s) || (kf_ell && after_ell[i])) && l[i + 1][j] {
             ok = true;
           }
           if j < k {
@@ -153,13 +174,18 @@ pub fn legal(gv: &[G], goals: &[Leaf; KMAX], m: usize, cands: &[Leaf; KMAX], k: 
 // ---- building the real pattern / candidate ---------------------------------------------
 
 pub fn pattern_node(gv: &[G], goals: &[Leaf; KMAX], root_kind: u16) -> PatternNode {
+  pattern_node_w(gv, goals, root_kind, 1)
+}
+
+/// like `pattern_node`, terminals' text is the leaf byte repeated `w` times
+pub fn pattern_node_w(gv: &[G], goals: &[Leaf; KMAX], root_kind: u16, w: usize) -> PatternNode {
   let mut children = Vec::with_capacity(gv.len());
   let mut i = 0;
   while i < gv.len() {
     let name = if i == 0 { "A" } else if i == 1 { "B" } else if i == 2 { "C" } else { "D" };
     children.push(match gv[i] {
       G::T => PatternNode::Terminal {
-        text: as_str(&[goals[i].text], 1).to_string(),
+        text: as_str(&[goals[i].text, goals[i].text], w).to_string(),
         is_named: goals[i].named,
         kind_id: goals[i].kind,
       },
@@ -200,6 +226,18 @@ pub fn make_pattern(node: PatternNode, s: u8) -> Pattern<HL> {
 
 /// candidate FLAT(k): root (kind `root_kind`) + k one-byte leaves
 pub fn flat_tree(cands: &[Leaf; KMAX], k: usize, root_kind: u16, src: &mut [u8; KMAX]) -> TreeData {
+  let mut wide = [b' '; 2 * KMAX];
+  let d = flat_tree_w(cands, k, root_kind, &mut wide, 1);
+  let mut i = 0;
+  while i < KMAX {
+    src[i] = wide[i];
+    i += 1;
+  }
+  d
+}
+
+/// candidate FLAT(k) whose leaves are `w` bytes wide (the leaf byte repeated)
+pub fn flat_tree_w(cands: &[Leaf; KMAX], k: usize, root_kind: u16, src: &mut [u8; 2 * KMAX], w: usize) -> TreeData {
   let mut parent = [0u8; MAXN];
   let _ = &mut parent;
   let mut d = TreeData::from_parents(k + 1, &parent);
@@ -210,11 +248,15 @@ pub fn flat_tree(cands: &[Leaf; KMAX], k: usize, root_kind: u16, src: &mut [u8; 
     if i < k {
       d.nodes[i + 1].kind = cands[i].kind;
       d.nodes[i + 1].named = cands[i].named;
-      src[i] = cands[i].text;
+      let mut b = 0;
+      while b < w {
+        src[i * w + b] = cands[i].text;
+        b += 1;
+      }
     }
     i += 1;
   }
-  d.layout(&[1; MAXN], &[0; MAXN]);
+  d.layout(&[w as u8; MAXN], &[0; MAXN]);
   d.fix_named_counts();
   d
 }
@@ -277,7 +319,10 @@ mod tests {
 mod proofs {
   use super::*;
 
-  fn setup(gv: &[G], kmax: usize) -> ([Leaf; KMAX], [Leaf; KMAX], usize, u8) {
+  /// labels symbolic; the *number* of candidates `k` is concrete per call (harnesses loop
+  /// over k): with a concrete shape every byte range is a constant and the string
+  /// comparisons inside the matcher have literal lengths
+  fn setup(gv: &[G], k: usize) -> ([Leaf; KMAX], [Leaf; KMAX], u8) {
     let m = gv.len();
     let s: u8 = kani::any();
     kani::assume(s < 5);
@@ -288,51 +333,51 @@ mod proofs {
       if i < m && gv[i] == G::T {
         goals[i] = any_leaf(true);
       }
-      if i < kmax {
+      if i < k {
         cands[i] = any_leaf(false);
       }
       i += 1;
     }
-    let k: usize = kani::any();
-    kani::assume(k <= kmax);
-    (goals, cands, k, s)
+    (goals, cands, s)
   }
 
-  /// soundness through the `ComputeEnd` instantiation (`Pattern::get_match_len`): the same
-  /// alignment code without the meta-variable environment (no heap maps).
-  /// `Some(len)` => a legal alignment exists, len <= node length, len ends at a child end.
-  fn sound_len(gv: &[G], kmax: usize) {
-    let (goals, cands, k, s) = setup(gv, kmax);
-    let pat = make_pattern(pattern_node(gv, &goals, K_CALL), s);
-    let mut src = [b' '; KMAX];
-    let d = flat_tree(&cands, k, K_CALL, &mut src);
-    let g = mk_grep(as_str(&src, k), d);
+  /// the length clause (`ComputeEnd` instantiation, `Pattern::get_match_len`): whatever
+  /// node it is asked about, a reported prefix length never exceeds the node and ends at
+  /// the end of a child (children are 2 bytes wide here, so: even and <= 2k).
+  /// NB `get_match_len` is *not* a soundness oracle for matches: its aggregator does not
+  /// check `$A`'s named-only restriction (it is only consulted for nodes that matched).
+  fn len_bound(gv: &[G], k: usize) {
+    let (goals, cands, s) = setup(gv, k);
+    let mut pat = make_pattern(pattern_node_w(gv, &goals, K_CALL, 2), s);
+    let mut src = [b' '; 2 * KMAX];
+    let d = flat_tree_w(&cands, k, K_CALL, &mut src, 2);
+    let g = mk_grep(as_str(&src, 2 * k), d);
     let got = pat.get_match_len(g.root());
-    let want = legal(gv, &goals, gv.len(), &cands, k, s);
-    kani::cover!(got.is_some() && k == kmax);
-    kani::cover!(got.is_some() && s == 0);
-    kani::cover!(got.is_some() && s == 4 && k >= 2);
-    kani::cover!(got.is_none() && want);
-    if let Some(len) = got {
-      assert!(want, "reported match has no legal alignment");
-      // never exceeds the node, never splits a child (children are 1 byte wide here)
-      assert!(len <= k);
+    if k == gv.len() {
+      kani::cover!(got == Some(2 * k));
+      kani::cover!(matches!(got, Some(l) if l < 2 * k));
     }
+    if let Some(len) = got {
+      assert!(len <= 2 * k && len % 2 == 0, "match length exceeds the node or splits a child");
+    }
+    let _ = &mut pat;
     std::mem::forget(pat);
     std::mem::forget(g);
   }
 
   /// soundness through the real `Cow<MetaVarEnv>` instantiation (`Pattern::match_node`)
-  fn sound_env(gv: &[G], kmax: usize) {
-    let (goals, cands, k, s) = setup(gv, kmax);
+  fn sound_env(gv: &[G], k: usize) {
+    let (goals, cands, s) = setup(gv, k);
     let pat = make_pattern(pattern_node(gv, &goals, K_CALL), s);
     let mut src = [b' '; KMAX];
     let d = flat_tree(&cands, k, K_CALL, &mut src);
     let g = mk_grep(as_str(&src, k), d);
     let got = pat.match_node(g.root());
     let want = legal(gv, &goals, gv.len(), &cands, k, s);
-    kani::cover!(got.is_some() && k == kmax);
-    kani::cover!(got.is_none() && want);
+    if k == gv.len() {
+      kani::cover!(got.is_some());
+      kani::cover!(got.is_none() && want);
+    }
     if got.is_some() {
       assert!(want, "reported match has no legal alignment");
     }
@@ -341,15 +386,27 @@ mod proofs {
     std::mem::forget(g);
   }
 
-  #[kani::proof]
-  #[kani::unwind(10)]
-  fn c03_sound_len_t_cap_t_k3() {
-    sound_len(&[G::T, G::CapNamed, G::T], 3);
+  /// one harness per (goal variant vector, number of candidate children): the symbolic
+  /// execution is single-threaded, the machine has 16 cores
+  macro_rules! align_harness {
+    ($name:ident, $f:ident, [$($g:expr),*], $k:expr) => {
+      #[kani::proof]
+      #[kani::unwind(10)]
+      fn $name() {
+        $f(&[$($g),*], $k);
+      }
+    };
   }
-
-  #[kani::proof]
-  #[kani::unwind(10)]
-  fn c03_sound_env_t_cap_k2() {
-    sound_env(&[G::T, G::CapNamed], 2);
-  }
+  align_harness!(c03_len_t_cap_t_k2, len_bound, [G::T, G::CapNamed, G::T], 2);
+  align_harness!(c03_len_t_cap_t_k3, len_bound, [G::T, G::CapNamed, G::T], 3);
+  align_harness!(c03_len_ell_t_k2, len_bound, [G::T, G::Ell, G::T], 2);
+  align_harness!(c03_env_t_cap_k1, sound_env, [G::T, G::CapNamed], 1);
+  align_harness!(c03_env_t_cap_k2, sound_env, [G::T, G::CapNamed], 2);
+  align_harness!(c03_env_t_cap_t_k2, sound_env, [G::T, G::CapNamed, G::T], 2);
+  align_harness!(c03_env_t_cap_t_k3, sound_env, [G::T, G::CapNamed, G::T], 3);
+  align_harness!(c03_env_t_t_k2, sound_env, [G::T, G::T], 2);
+  align_harness!(c03_env_t_t_k3, sound_env, [G::T, G::T], 3);
+  align_harness!(c03_env_ell_t_k2, sound_env, [G::Ell, G::T], 2);
+  align_harness!(c03_env_t_ell_t_k3, sound_env, [G::T, G::EllCap, G::T], 3);
+  align_harness!(c03_env_capany_t_k2, sound_env, [G::CapAny, G::T], 2);
 }
